@@ -117,6 +117,15 @@ def one_program(ctx, script, rng, settings_list):
     _build_and_compare(ctx, script, symbols, n_eq, rng, settings_list, case)
     # the same symbols in another order (symbol lists may be concatenated or hand-ordered): verbatim symbols first, rest reversed
     reordered = [s for s in symbols if s.type.name == 'VERBATIM'] + [s for s in reversed(symbols) if s.type.name != 'VERBATIM']
+    if reordered != symbols:
+        # lag / lead lengths are a property of the set of symbols, not of the order they are listed in
+        try:
+            M1, M2 = fsic.build_model(symbols), fsic.build_model(reordered)
+            if (M1.LAGS, M1.LEADS) != (M2.LAGS, M2.LEADS):
+                ctx.violation('variant-attributes', f'the same symbols listed verbatim-first / rest reversed give LAGS, LEADS = {(M2.LAGS, M2.LEADS)}; in parse order {(M1.LAGS, M1.LEADS)}', dict(case, symbol_order='verbatim-first-rest-reversed'))
+                return
+        except Exception:
+            pass
     if n_eq > 1 and reordered != symbols:
         ctx.count('reordered_symbol_lists')
         _build_and_compare(ctx, script, reordered, n_eq, rng, settings_list[:1], dict(case, symbol_order='verbatim-first-rest-reversed'))
